@@ -437,8 +437,14 @@ func (s *inst) judgePlain(what string, k string, found bool, v string, hasValue 
 		}
 	}
 	if !found && must {
-		return "value-put-in-open-epoch-not-readable-while-epoch-active",
-			fmt.Sprintf("%s fails although %s was put (and not removed) in an epoch that is still active; %s", what, k, s.ctx())
+		// refine the class: is the persister of the promised epoch(s) open at all?
+		sig := "value-put-in-open-epoch-not-readable-while-epoch-active:active-epoch-has-closed-persister"
+		for _, p := range view.Active {
+			if s.present[p.Epoch][k] && !p.Closed {
+				sig = "value-put-in-open-epoch-not-readable-while-epoch-active:open-active-persister-not-consulted"
+			}
+		}
+		return sig, fmt.Sprintf("%s fails although %s was put (and not removed) in an epoch that is still active; %s", what, k, s.ctx())
 	}
 	if found && (len(allowed) == 0 || (hasValue && !allowed[v])) {
 		if s.removed[k] {
